@@ -475,8 +475,25 @@ func (g *Gen) genInt(sc *Scope, d int) *Expr {
 			return Bin(op, g.Expr(TInt, sc, d-1, false), Int(g.n(4, "pow")))
 		}
 		return Bin(op, g.Expr(TInt, sc, d-1, false), g.Expr(TInt, sc, d-1, false))
-	case c < 34:
+	case c < 32:
 		return Un("-", g.Expr(TInt, sc, d-1, false))
+	case c < 34:
+		// the operator table defines '&' and '|' on ints as well (bitwise)
+		return Bin([]string{"&", "|"}[g.n(2, "bitop")], g.Expr(TInt, sc, d-1, false), g.Expr(TInt, sc, d-1, false))
+	case c < 37 && g.C.ConstRich:
+		// chains of the regroupable operator '*' mixing constants and variables in every position
+		k := func() *Expr { g.nodes++; return Int(rapid.IntRange(-3, 7).Draw(g.T, "chainConst")) }
+		v := g.Expr(TInt, sc, d-1, false)
+		switch g.n(4, "chainShape") {
+		case 0:
+			return Bin("*", Bin("*", k(), v), k())
+		case 1:
+			return Bin("*", Bin("*", v, k()), k())
+		case 2:
+			return Bin("*", k(), Bin("*", v, k()))
+		default:
+			return Bin("*", Bin("*", Bin("*", k(), v), k()), g.Expr(TInt, sc, d-1, false))
+		}
 	case c < 44:
 		g.Stats["call_fn1"]++
 		return Call(g.callee(TFn1, sc, d-1), g.Expr(TInt, sc, d-1, true))
